@@ -23,10 +23,14 @@ KindSeqs == {<<"socket", "socket", "socket">>} \cup
             {[i \in 1..3 |-> IF i = p THEN k ELSE "socket"] : p \in 1..3, k \in {"file", "pipe"}}
 (* addr: the address argument is an abstract name, or a filesystem path that holds a stale socket file - which the  *)
 (* service must leave alone exactly when it ignores the argument                                                  *)
-Envs == [pid : Pids, fds : Fds, names : NameSets, kinds : KindSeqs, addr : {"abs"}]
+(* rounds: the helper serves, is shut down, lets the garbage collector run, and serves again: the choice is the same every time *)
+Envs == [pid : Pids, fds : Fds, names : NameSets, kinds : KindSeqs, addr : {"abs"}, rounds : {1}]
+        \cup [pid : {"match", "differ"}, fds : {"1", "2"},
+              names : {[set |-> FALSE, v |-> <<>>], [set |-> TRUE, v |-> <<V, "x">>], [set |-> TRUE, v |-> <<"x", V>>]},
+              kinds : {<<"socket", "socket", "socket">>}, addr : {"abs"}, rounds : {2}]
         \cup [pid : {"match", "differ"}, fds : {"0", "1", "2"},
               names : {[set |-> FALSE, v |-> <<>>], [set |-> TRUE, v |-> <<V, "x">>], [set |-> TRUE, v |-> <<"x", V>>]},
-              kinds : {<<"socket", "socket", "socket">>, <<"file", "socket", "socket">>}, addr : {"fs"}]
+              kinds : {<<"socket", "socket", "socket">>, <<"file", "socket", "socket">>}, addr : {"fs"}, rounds : {1}]
 
 ToNat(s) == CASE s = "1" -> 1 [] s = "2" -> 2 [] s = "3" -> 3 [] OTHER -> 0
 
